@@ -547,7 +547,103 @@ def c19(sc, tier, seed):
                     level='fault_enumeration')
 
 
-CHECKS = {'C01': c01, 'C19': c19, 'C13': c13, 'C02': c02, 'C18': c18, 'C15': c15, 'C08': c08, 'C14': c14, 'C10': c10, 'C09': c09, 'C07': c07, 'C06': c06, 'C03': c03, 'C04': c04, 'C05': c05}
+def c20(sc, tier, seed):
+    """Lifecycle: TLC-enumerated scenarios of Lifecycle.tla executed against the public API in child processes."""
+    import random as _r
+    from concurrent.futures import ThreadPoolExecutor
+    v = Verdict('C20', tier, seed)
+    exe = build_harness(sc)
+    devs = open_devs()
+    cfg = open(os.path.join(SPEC, 'Lifecycle.cfg')).read()
+    out, st = run_tlc(sc, 'Lifecycle', cfg, timeout=600, workers=4)
+    require_tlc_clean(st, 'Lifecycle')
+    v.add_tlc('Lifecycle', st)
+    scen = [op['life'] for op in tlc_json_lines(out) if 'life' in op]
+    if not scen:
+        raise Inconclusive('Lifecycle produced no scenario')
+    rnd = _r.Random(seed)
+    rnd.shuffle(scen)
+    # scenarios with clients connected at a close first
+    def weight(s_):
+        open_, w_ = set(), 0
+        for a in s_:
+            if a['a'] == 'connect':
+                open_.add(a['c'])
+            if a['a'] == 'close':
+                w_ += len(open_)
+        return -w_
+    scen.sort(key=weight)
+    n = 160 if tier == 'quick' else 2500
+    chosen = scen[:n // 2] + rnd.sample(scen[n // 2:], min(n - n // 2, len(scen) - n // 2))
+    base = int(os.environ.get('VERIF_PORT', 21000)) + 2300
+
+    def run_one(arg):
+        k, s_ = arg
+        port = base + 4 * (k % 64)
+        try:
+            p = subprocess.run([exe, 'lifehost', str(port), json.dumps(s_)], stdout=subprocess.PIPE, stderr=subprocess.PIPE, text=True, timeout=40)
+        except subprocess.TimeoutExpired:
+            return s_, None, 'timeout', ''
+        lines = [l for l in p.stdout.splitlines() if l.startswith('{')]
+        return s_, (json.loads(lines[-1]) if lines else None), p.returncode, p.stderr[-800:]
+    with ThreadPoolExecutor(max_workers=8) as ex:
+        results = list(ex.map(run_one, list(enumerate(chosen))))
+    nontriv = 0
+    for s_, ob, rc, err in results:
+        v.cov['evaluations'] += 1
+        desc = ' '.join(a['a'] + str(a.get('i', a.get('c', ''))) + (':' + a['act'] if 'act' in a else '') for a in s_)
+        if ob is None or rc == 'timeout':
+            v.record_violation({'scenario': s_}, {'fail': {'status': 'viol', 'cmd': desc, 'detail': 'scenario host did not finish (%s): %s' % (rc, err[-300:])}}, engine='life')
+            continue
+        v.cov['traces_validated_against_impl'] += 1
+        problems, known = [], []
+        if rc != 0 or (ob['steps'] and ob['steps'][-1].get('a') == 'starting'):
+            problems.append('the process exited while starting instance %s on the port (listen failed: port not released?) %s' % (ob['steps'][-1].get('i'), err[-200:]))
+        for o in ob['steps']:
+            if o['a'] == 'start' and o.get('dbsize', 0) != 0:
+                problems.append('successor instance %s is not empty: DBSIZE %s' % (o.get('i'), o.get('dbsize')))
+            if o['a'] == 'start' and ('dial_err' in o or 'dbsize_err' in o):
+                problems.append('started instance %s does not serve: %s' % (o.get('i'), o.get('dial_err') or o.get('dbsize_err')))
+            if o['a'] == 'close':
+                if not o.get('returned') or o.get('ms', 0) > 2000:
+                    problems.append('Close() of instance %s did not return within 2 s' % o.get('i'))
+                if o.get('port_still_accepts'):
+                    problems.append('the port still accepts connections after Close()')
+                for pr in o.get('old_conns', []):
+                    nontriv += 1
+                    if pr['outcome'] != 'closed':
+                        known.append('connection %s (%s) after Close(): %s %s' % (pr['c'], pr['act'], pr['outcome'], pr.get('reply', '')))
+        iso = ob.get('iso') or {}
+        if iso.get('b_sees_a_data'):
+            problems.append('instance B sees data written to instance A')
+        reg = []
+        if iso.get('a_client_list_lines', 1) != 1:
+            reg.append('CLIENT LIST of instance A lists %s connections (1 is connected to it)' % iso.get('a_client_list_lines'))
+        if iso.get('b_conn_survives_kill_from_a') is False:
+            reg.append('CLIENT KILL ID issued on instance A closed a connection of instance B')
+        if known:
+            if 'D_CLOSE_LEAVES_CONNECTIONS_OPEN' in devs:
+                v.record_known('D_CLOSE_LEAVES_CONNECTIONS_OPEN', desc + ' :: ' + '; '.join(known)[:200])
+            else:
+                problems += known
+        if reg:
+            if 'D_CLIENT_REGISTRY_IS_PROCESS_GLOBAL' in devs:
+                v.record_known('D_CLIENT_REGISTRY_IS_PROCESS_GLOBAL', '; '.join(reg)[:200])
+            else:
+                problems += reg
+        if problems:
+            v.record_violation({'scenario': s_, 'observed': ob}, {'fail': {'status': 'viol', 'cmd': desc, 'detail': '; '.join(problems)[:600]}}, engine='life')
+    v.cov['distinct_nontrivial'] = nontriv
+    v.cov['engines']['life'] = {'scenarios_enumerated_by_tlc': len(scen), 'scenarios_run': len(chosen), 'connections_probed_after_close': nontriv}
+    v.cov['samples'].append(chosen[0])
+    v.assumptions = ['Close() is given 2 s (watchdog); an old connection is probed with the natural next command of its activity (GET / rest of the pipeline / EXEC / wait for the blocked reply) for 0.5 s',
+                     'each scenario runs in its own child process (a failed listen calls os.Exit(1) in the emulator and is observed as the death of that child)',
+                     'the two-instances-alive part (data, CLIENT LIST, CLIENT KILL across instances) is a fixed epilogue of every scenario, not enumerated by the model']
+    return v.finish(rule='TLC enumerates every behaviour of Lifecycle.tla with 6 actions over 2 instances on one port and 3 clients in the activities idle / mid-pipeline / inside MULTI / blocked with timeout 0 (3648 scenarios with at least one Close), checks ClosedMeansDisconnected, PortConsistent and NoSharedData on the model; scenarios (those with most clients connected at a Close first, then seeded) are executed against the public API in child processes. Non-trivial = connection probed after a Close.',
+                    level='fault_enumeration')
+
+
+CHECKS = {'C01': c01, 'C20': c20, 'C19': c19, 'C13': c13, 'C02': c02, 'C18': c18, 'C15': c15, 'C08': c08, 'C14': c14, 'C10': c10, 'C09': c09, 'C07': c07, 'C06': c06, 'C03': c03, 'C04': c04, 'C05': c05}
 
 
 def replay_path(path):
